@@ -133,6 +133,7 @@ counters!(
     runs_transparent,
     runs_mixed,
     runs_concurrent,
+    runs_longhistory,
     conc_threads,
     conc_yield_points,
     conc_switches,
@@ -842,6 +843,8 @@ impl Sim {
                 w.ctr.inc(C::runs_transparent);
             } else if sc.stratum == "concurrent" {
                 w.ctr.inc(C::runs_concurrent);
+            } else if sc.stratum == "longhistory" {
+                w.ctr.inc(C::runs_longhistory);
             } else if sc.stratum == "thread" {
                 w.ctr.v[C::runs as usize] -= 1; // a client thread of a Concurrent op, not a run
             } else {
